@@ -19,6 +19,7 @@
 package standard
 
 import (
+	"errors"
 	"net"
 	"runtime"
 	"strconv"
@@ -77,12 +78,23 @@ func ReleaseForVerif(nc network.Conn) {
 		return
 	}
 	c.releaseCaches()
+	// The Conn stays usable (empty, failing reads): a body stream that is closed later by its finalizer
+	// still skips its rest on this Conn, and must not touch nodes that went back to the pool.
+	empty := func(l *linkBuffer) {
+		n := &linkBufferNode{}
+		l.head, l.read, l.write, l.len = n, n, n, 0
+	}
 	if c.inputBuffer != nil {
 		runtime.SetFinalizer(c.inputBuffer, nil)
 		c.inputBuffer.release()
+		empty(c.inputBuffer)
 	}
 	if c.outputBuffer != nil {
 		runtime.SetFinalizer(c.outputBuffer, nil)
 		c.outputBuffer.release()
+		empty(c.outputBuffer)
 	}
+	c.err = errReleasedForVerif
 }
+
+var errReleasedForVerif = errors.New("connection buffers released by the verification harness")
